@@ -24,7 +24,7 @@ package keeper
 //@         && (forall d: str :: {$supply[d]} $supply[d] == old($supply[d]) - truncInt(old(state.Remains[d])))
 //@         && (forall d: str :: {$bal[MAIN()][d]} $bal[MAIN()][d] == old($bal[MAIN()][d]) - truncInt(old(state.Remains[d])))
 //@         && (forall a: str :: {$bal[a]} a != MAIN() ==> $bal[a] == old($bal[a])))
-//@   prop C01 C14 C10 C03
+//@   prop C01 C14 C10 C03 C04
 //@ func (k Keeper) sendCoinsToModuleAccount(ctx, state)
 //@   requires state != nil && state.Account != nil && modaddr(state.Account.Id) != MAIN()
 //@   // the destination was validated against maccPerms when it was configured (Account.Validate)
@@ -36,7 +36,7 @@ package keeper
 //@         && (forall d: str :: {$bal[MAIN()][d]} $bal[MAIN()][d] == old($bal[MAIN()][d]) - truncInt(old(state.Remains[d])))
 //@         && (forall d: str :: {$bal[modaddr(state.Account.Id)][d]} $bal[modaddr(state.Account.Id)][d] == old($bal[modaddr(state.Account.Id)][d]) + truncInt(old(state.Remains[d])))
 //@         && (forall a: str :: {$bal[a]} a != MAIN() && a != modaddr(state.Account.Id) ==> $bal[a] == old($bal[a])))
-//@   prop C14 C01 C10 C03
+//@   prop C14 C01 C10 C03 C04
 //@ func (k Keeper) sendCoinsToBaseAccount(ctx, state)
 //@   requires state != nil && state.Account != nil && fromBech32(state.Account.Id) != MAIN()
 //@   modifies $bal, *state, $accTag, $accSeq, $accPub
@@ -46,7 +46,7 @@ package keeper
 //@         && (forall d: str :: {$bal[MAIN()][d]} $bal[MAIN()][d] == old($bal[MAIN()][d]) - truncInt(old(state.Remains[d])))
 //@         && (forall d: str :: {$bal[fromBech32(state.Account.Id)][d]} $bal[fromBech32(state.Account.Id)][d] == old($bal[fromBech32(state.Account.Id)][d]) + truncInt(old(state.Remains[d])))
 //@         && (forall a: str :: {$bal[a]} a != MAIN() && a != fromBech32(state.Account.Id) ==> $bal[a] == old($bal[a])))
-//@   prop C14 C01 C10 C03
+//@   prop C14 C01 C10 C03 C04
 //@ // ---- the state list: lookup and sums (C03 / C04) ----
 //@ // total remains of denom d over the first n states of a row
 //@ spec func sumRem(row [int][str]int, d str, n int) int = n <= 0 ? 0 : sumRem(row, d, n - 1) + row[n - 1][d]
@@ -200,7 +200,7 @@ package keeper
 //@   ensures existingAccountsUntouched() && $supply == old($supply)
 //@   ensures (res == zeroCoins() && $bal == old($bal)) || sweptAll(modaddr(source.Id), res)
 //@   ensures forall d: str :: {res[d]} res[d] >= 0
-//@   prop C14 C03 C10
+//@   prop C14 C03 C10 C01 C04
 //@ func (k Keeper) prepareCoinToDistributeForBaseAccount(ctx, source, subDistributorName) (res)
 //@   requires fromBech32(source.Id) != MAIN()
 //@   // a base-account source id was validated to be a bech32 address (Account.Validate)
@@ -209,7 +209,7 @@ package keeper
 //@   ensures existingAccountsUntouched() && $supply == old($supply)
 //@   ensures (res == zeroCoins() && $bal == old($bal)) || sweptAll(fromBech32(source.Id), res)
 //@   ensures forall d: str :: {res[d]} res[d] >= 0
-//@   prop C14 C03 C10
+//@   prop C14 C03 C10 C01 C04
 //@ // the source's own queued remains are re-queued into the inflow: the states' total drops by exactly what the inflow gains
 //@ func prepareLeftCoinToDistribute(coinsToDistribute, source, states) (res)
 //@   requires off(states) == 0 && statesHaveAccounts(states) && remainsNonNeg(states)
@@ -234,7 +234,7 @@ package keeper
 //@   ensures statesHaveAccounts(states) && remainsNonNeg(states) && payoutOK(states) == old(payoutOK(states))
 //@   ensures [books] forall d: str :: {res[d]} unbooked(states, d) == old(unbooked(states, d)) + res[d]
 //@   ensures forall d: str :: {res[d]} res[d] >= 0 && $bal[MAIN()][d] >= old($bal[MAIN()][d])
-//@   prop C03 C14 C10
+//@   prop C03 C14 C10 C01 C04
 
 //@ pred sourcesOK(srcs) = forall k: int :: {srcs[k]} 0 <= k && k < len(srcs) ==> srcs[k] != nil && sourceOK(srcs[k])
 //@ // is the main account among the first n sources
@@ -252,7 +252,7 @@ package keeper
 //@   ensures statesHaveAccounts(states) && remainsNonNeg(states) && payoutOK(states) == old(payoutOK(states))
 //@   ensures forall d: str :: {res[d]} res[d] >= 0 && $bal[MAIN()][d] >= 0
 //@   ensures [books] forall d: str :: {res[d]} unbooked(states, d) == (mainAmongOf(sources, len(sources)) ? 0 : old(unbooked(states, d))) + res[d]
-//@   prop C03 C14 C10
+//@   prop C03 C14 C10 C01 C04
 //@ loop Keeper.PrepareCoinsToDistribute#1
 //@   invariant 0 <= \i && \i <= len(sources)
 //@   invariant statesHaveAccounts(states) && remainsNonNeg(states) && existingAccountsUntouched() && $supply == old($supply)
@@ -364,7 +364,7 @@ package keeper
 //@   ensures existingAccountsUntouched() && $stLogN == old($stLogN) + len(states)
 //@   ensures [books] forall d: str :: {$bal[MAIN()][d]} $bal[MAIN()][d] * P - sumLog($stLogRem, old($stLogN), d, len(states)) == old(unbooked(states, d))
 //@   ensures forall d: str :: {$supply[d]} $supply[d] <= old($supply[d])
-//@   prop C03 C14 C01 C10
+//@   prop C03 C14 C01 C10 C04
 //@ loop Keeper.SendCoinsFromStates#1
 //@   invariant 0 <= \i && \i <= len(states) && existingAccountsUntouched() && $stLogN == old($stLogN) + \i
 //@   invariant forall d: str :: {$bal[MAIN()][d]} $bal[MAIN()][d] * P - sumLog($stLogRem, old($stLogN), d, \i) - (sumRem(remRow(states), d, len(states)) - sumRem(remRow(states), d, \i)) == old(unbooked(states, d))
